@@ -6,6 +6,7 @@
 import Rbql.Model.Writer
 import Rbql.Proofs.ReaderPyLines
 import Rbql.Proofs.ReaderJsLines
+import Rbql.Proofs.ReadersAgree
 namespace Rbql
 
 theorem escapeQ_of_no_quote (f : Str) (h : QUOTE ∉ f) : escapeQ f = f := by
@@ -49,6 +50,35 @@ theorem C18_readers_same_lines (c : RCfg) (henc : c.enc = .none) (hc : 1 ≤ c.c
   cases linesSpec jsPieces.flatten with
   | nil => rfl
   | cons r rs => simp [removeBom]
+
+/-- Record level: from the same text the Python reader and the JS reader deliver the same header, the
+same records, the same warnings (as a set: the two ports list them in different orders) or the same
+error — through comment skipping, quoted_rfc multi-line assembly, BOM handling, the header logic and the
+field-count statistics.  `CommentOK` only excludes, under quoted_rfc, comment prefixes that contain a
+line feed after an odd number of quotes (there the two ports really differ: DESIGN.md section 5, D15); every prefix
+without LF satisfies it (`CommentOK_of_noLF`). -/
+theorem C18_readers_agree (c : RCfg) (hc : 1 ≤ c.chunk) (hok : CommentOK c) (hasHeader : Bool)
+    (modifier : Option Bool) (text : Str) :
+    canonResult (readAll c hasHeader modifier (if text = [] then [] else [text])) =
+      canonResult (jsResult (jsBulk c text) hasHeader modifier) :=
+  readers_agree c hc hok hasHeader modifier text
+
+/-- combined with chunk independence of both readers (C12, C20): any chunking on either side -/
+theorem C18_readers_agree_any_chunking (c : RCfg) (hc : 1 ≤ c.chunk) (hok : CommentOK c) (hasHeader : Bool)
+    (modifier : Option Bool) (pyPieces jsPieces : List Str) (hp : ∀ p ∈ pyPieces, p ≠ []) (hj : GoodPieces jsPieces)
+    (hflat : pyPieces.flatten = jsPieces.flatten) :
+    canonResult (readAll c hasHeader modifier pyPieces) =
+      canonResult (jsResult (jsStream c jsPieces) hasHeader modifier) := by
+  have h1 : ∀ p ∈ (if pyPieces.flatten = [] then [] else [pyPieces.flatten]), p ≠ [] := by
+    intro p hp'
+    split at hp'
+    · cases hp'
+    · simp at hp'; subst hp'; assumption
+  have hf : pyPieces.flatten = (if pyPieces.flatten = [] then ([] : List Str) else [pyPieces.flatten]).flatten := by
+    split <;> simp_all
+  have := readAll_content_only c c.chunk hc hc hasHeader modifier pyPieces _ hp h1 hf
+  rw [this, stream_eq_bulk c jsPieces hj, ← hflat]
+  exact readers_agree c hc hok hasHeader modifier pyPieces.flatten
 
 /-! non-vacuity -/
 example : quoteField [','] ['a', ',', 'b'] = ['"', 'a', ',', 'b', '"'] := by decide
